@@ -59,17 +59,20 @@ Example C09_example :
 Proof. vm_compute. reflexivity. Qed.
 
 (** coordinates supplied in degrees are stored as the nearest multiple of 1e-7: for EVERY finite double
-    in range outside the near-tie class of the known finding D7 (the f64 product d * 1e7 is exactly a
-    half-integer although the exact product is not), the stored i32 is within 1/2 of the exact product *)
+    whose product with 1e7 lies in the i32 range the stored i32 is within 1/2 of the EXACT product
+    (no exception: the double-rounding class of the former finding D7 is handled by the code's
+    correction step, whose exactness is part of this proof) *)
 Require Import PM.NearestProofs.
 From Coq Require Import Reals.
 From Flocq Require Import Core BinarySingleNaN.
 Theorem C09_nearest : forall d : f64, is_finite d = true ->
-  (Rabs (B2R d * 10000000) <= 2147483647)%R -> ~ near_tie d ->
+  (Rabs (B2R d * 10000000) <= 2147483647)%R ->
   (Rabs (IZR (stored_of_deg d) - B2R d * 10000000) <= / 2)%R /\ (-2147483647 <= stored_of_deg d <= 2147483647)%Z.
 Proof. exact stored_nearest. Qed.
 
-(** the known finding D7, as the model sees it: 35.19440175 is stored as 351944018 (the exact product is
-    351944017.4999999…, the f64 product exactly …017.5, and ties round away from zero) *)
-Example C09_near_tie_witness : stored_of_deg (f64_of_bits 4630149989015962752) = 351944018%Z.
-Proof. vm_compute. reflexivity. Qed.
+(** what the code did before its second repair (D7): 35.19440175 was stored as 351944018 (the exact product
+    is 351944017.4999999…, the f64 product exactly …017.5, and ties round away from zero); now 351944017 *)
+Example C09_near_tie_witness :
+  stored_of_deg_double_rounding (f64_of_bits 4630149989015962752) = 351944018%Z /\
+  stored_of_deg (f64_of_bits 4630149989015962752) = 351944017%Z.
+Proof. vm_compute. split; reflexivity. Qed.
